@@ -36,8 +36,7 @@ func (k KeyFiles) Keys() []tbls.PrivateKey {
 // If the indexes are unknown or not sequential or there are duplicates, an error is returned.
 func (k KeyFiles) SequencedKeys() ([]tbls.PrivateKey, error) {
 	resp := make([]tbls.PrivateKey, len(k))
-
-	var zero tbls.PrivateKey
+	seen := make([]bool, len(k))
 
 	for _, ks := range k {
 		if !ks.HasIndex() {
@@ -49,11 +48,12 @@ func (k KeyFiles) SequencedKeys() ([]tbls.PrivateKey, error) {
 				z.Int("index", ks.FileIndex), z.Str("filename", ks.Filename))
 		}
 
-		if resp[ks.FileIndex] != zero {
+		if seen[ks.FileIndex] {
 			return nil, errors.New("duplicate keystore index",
 				z.Int("index", ks.FileIndex), z.Str("filename", ks.Filename))
 		}
 
+		seen[ks.FileIndex] = true
 		resp[ks.FileIndex] = ks.PrivateKey
 	}
 
